@@ -96,17 +96,22 @@ def gen_case(rng, tier, kind=None):
     if kind in ("kmeans", "gmm_ml", "gmm_map", "gmm_kminit"):
         n = rng.randint(2, (300 if huge else 80) if big else 30)
         d = tail(rng, 1, 6 if big else 4, [9, 17, 33, 65], 0.03)
+        rows_tail = rng.random() < 0.025
+        if rows_tail:  # blocks / data sets of thousands of rows
+            n, d = rng.choice([1025, 2500, 4097, 5000]), rng.randint(1, 3)
         X = gen_data(rng, n, d)
         if rng.random() < 0.06:  # integer-valued (still valid) training data
             X = np.round(X / (np.abs(X).max() or 1.0) * 50.0)
             case["xint"] = True
         case["X"] = L(X)
         case["chunks"] = _gen_chunks(rng, n, many=huge)
+        if rows_tail:
+            case["chunks"] = random_composition(rng, n, rng.randint(1, 3))
         if rng.random() < 0.15:
             case["refit"] = True  # the same estimator object is trained a second time
         if d >= 2 and rng.random() < 0.12:
             case["fchunks"] = random_composition(rng, d, rng.randint(2, d))
-        K = rng.randint(1, 8)
+        K = rng.randint(1, 8) if not rows_tail else rng.randint(1, 2)
         case["K"] = K
         case["thr"] = rng.choice(THRS)
         if kind == "kmeans":
@@ -150,6 +155,8 @@ def gen_case(rng, tier, kind=None):
     elif kind in ("isv", "jfa"):
         nc = tail(rng, 2, 7 if big else 4, [9, 17, 33, 65, 70], 0.05)
         n = rng.randint(nc, max(nc + 4, 60 if big else 18))
+        if rng.random() < 0.03:  # a class with hundreds of samples
+            nc, n = rng.randint(2, 3), rng.choice([300, 600, 1100])
         d = rng.randint(1, 3)
         X = gen_data(rng, n, d)
         y = list(range(nc)) + [rng.randrange(nc) for _ in range(n - nc)]
